@@ -991,6 +991,8 @@ class _UnrollRangeComp(ast.NodeTransformer):
                 and isinstance(it.args[0], ast.Constant) and type(it.args[0].value) is int and 0 <= it.args[0].value <= 4):
             return n
         var = g.target.id
+        if not any(isinstance(x, ast.Name) and x.id == var for x in ast.walk(n.elt)):
+            return n             # `[deque() for _ in range(2)]`: k equal containers, read as they are by the rules that meet them
         if any(isinstance(x, ast.Name) and x.id == var and not isinstance(x.ctx, ast.Load) for x in ast.walk(n.elt)) \
                 or any(isinstance(x, (ast.Lambda, ast.ListComp, ast.SetComp, ast.DictComp, ast.GeneratorExp, ast.NamedExpr)) for x in ast.walk(n.elt)):
             return n
